@@ -29,6 +29,7 @@ type Env struct {
 	faultOpen  bool // OpenFile may fail (symbolic choice)
 	faultWrite bool
 	writes     int
+	readings   []Value
 }
 
 type FileNode struct {
@@ -81,6 +82,7 @@ func (e *Env) clone() *Env {
 		c.fds[i] = &n
 	}
 	c.openLog = append([]string(nil), e.openLog...)
+	c.readings = append([]Value(nil), e.readings...)
 	c.removed = append([]string(nil), e.removed...)
 	return &c
 }
@@ -374,6 +376,7 @@ func (e *Engine) addEnvIntrinsics() {
 				c.s.finish("INFEASIBLE", "")
 			}
 			env.lastNow = v
+			env.readings = append(env.readings, v)
 			return mkTime(v, 0)
 		}
 		env.fixedNow += int64(time.Millisecond)
@@ -732,6 +735,14 @@ func (e *Engine) addEnvIntrinsics() {
 			c.s.env.clockSym = m != 0
 			c.s.env.clockFrozen = m == 2
 			return nil
+		}
+		in[p+"vClockCount"] = func(c *callCtx) Value { return uint64(len(c.s.env.readings)) }
+		in[p+"vClockReading"] = func(c *callCtx) Value {
+			i := c.int(0)
+			if i < 0 || i >= len(c.s.env.readings) {
+				c.s.unsupported("vClockReading(%d) of %d", i, len(c.s.env.readings))
+			}
+			return c.s.env.readings[i]
 		}
 		in[p+"vFaults"] = func(c *callCtx) Value {
 			c.s.env.faultOpen = c.int(0) != 0
